@@ -1526,7 +1526,7 @@ class EdgeQLSourceGenerator(codegen.SourceGenerator):
         elif node.value:
             if not self.sdlmode:
                 self._write_keywords('SET ')
-            self.write(f'{node.name} := ')
+            self.write(f'{ident_to_str(node.name)} := ')
             if not isinstance(node.value, (qlast.BaseConstant, qlast.Set)):
                 self.write('(')
             self.visit(node.value)
@@ -1534,7 +1534,7 @@ class EdgeQLSourceGenerator(codegen.SourceGenerator):
                 self.write(')')
         elif not self.sdlmode:
             self._write_keywords('RESET ')
-            self.write(node.name)
+            self.write(ident_to_str(node.name))
 
     def _eval_bool_expr(
         self,
